@@ -270,7 +270,8 @@ def plan(ctx):
     n = 12
     per = 160 if not ctx.thorough else 6000
     for i in range(n):
-        specs.append({"kind": "gen", "i": i, "n": per, "depth": (1 + i % 2) if not ctx.thorough else (1 + i % 3),
+        # depth-2 cases cost about 0.5 s each (generation of nested envelopes dominates): fewer of them per shard in the quick tier
+        specs.append({"kind": "gen", "i": i, "n": per if (ctx.thorough or i % 2 == 0) else 100, "depth": (1 + i % 2) if not ctx.thorough else (1 + i % 3),
                       "route": "mem" if i % 4 else ("json" if i % 8 == 0 else "yaml")})
     return specs
 
